@@ -68,6 +68,8 @@ func (ex *Exec) vcall(name string, fn *ssa.Function, args []Val, caller *frame) 
 			return mkInt(64, uint64(int64(x)))
 		}
 		return args[1]
+	case "RaceProbe":
+		return nil
 	case "ParamBytes":
 		n := ex.mustStr(args[0], "v.ParamBytes name")
 		b := ex.run.PBytes[n]
